@@ -1,5 +1,5 @@
 (* SchedFacts6.v — any schedule of crawl-batch coroutines, rule-installation coroutines
-   and read-only coroutines (page queries, network queries): the run invariant holds at
+   and read-only coroutines (page queries, network queries, page-link queries): the run invariant holds at
    every intermediate state (C16_invariant_rules) and a complete schedule ends with the
    pages and the link multigraph of the batches applied one after another
    (C16_schedule_independent_rules): a rule installation creates no page and no link. *)
@@ -18,7 +18,8 @@ Inductive job :=
 | JBatch (d : list (bytes * list bytes))
 | JRule (p : bytes) (k : rulekind)
 | JPages (ps : list bytes)
-| JNet (out auto : bool).
+| JNet (out auto : bool)
+| JLinks (w : N) (ps : list bytes) (inb int outb : bool).
 
 Definition job_start (j : job) : coro :=
   match j with
@@ -26,10 +27,11 @@ Definition job_start (j : job) : coro :=
   | JRule p k => CRule (rule_start p k)
   | JPages ps => CPages (pagesq_start ps)
   | JNet out auto => CNet (netq_start out auto)
+  | JLinks w ps inb int outb => CLinks (plinksq_start w ps inb int outb)
   end.
 
 Definition job_wf (j : job) : Prop :=
-  match j with JBatch d => wf_data d | JRule p _ => wf_lru p | JPages _ => True | JNet _ _ => True end.
+  match j with JBatch d => wf_data d | JRule p _ => wf_lru p | JPages _ => True | JNet _ _ => True | JLinks _ _ _ _ _ => True end.
 
 Definition job_data (j : job) : list (list (bytes * list bytes)) :=
   match j with JBatch d => [d] | _ => [] end.
@@ -63,6 +65,7 @@ Definition JInv (s : traph) (a : astate) (j : job) (c : coro) : Prop :=
   | JRule _ _, CRule r => RInv r s
   | JPages ps, CPages q => QInv ps q s /\ qshape q
   | JNet _ _, CNet _ => True
+  | JLinks _ _ _ _ _, CLinks _ => True
   | _, _ => False
   end.
 
@@ -73,14 +76,16 @@ Proof.
   - apply (RInv_ext _ _ _ Hx H).
   - destruct H as (H1 & H2). split; [apply (QInv_ext _ _ _ _ Hx H1)|exact H2].
   - exact I.
+  - exact I.
 Qed.
 
 Lemma JInv_start : forall s a j, job_wf j -> JInv s a j (job_start j).
 Proof.
-  intros s a [d|p k|ps|out auto] H; cbn [job_wf job_start JInv] in *.
+  intros s a [d|p k|ps|out auto|w ps inb int outb] H; cbn [job_wf job_start JInv] in *.
   - apply BInv_start. exact H.
   - apply RInv_start. exact H.
   - split; [apply QInv_start|]. intro E. discriminate.
+  - exact I.
   - exact I.
 Qed.
 
@@ -94,7 +99,7 @@ Lemma cp_start : forall j,
   cpi (job_start j) = flat_map links_of (job_data j) /\
   cpe (job_start j) = flat_map events (job_data j).
 Proof.
-  intros [d|p k|ps|out auto]; cbn [job_start cpo cpi cpe job_data flat_map]; try (repeat split; reflexivity).
+  intros [d|p k|ps|out auto|w ps inb int outb]; cbn [job_start cpo cpi cpe job_data flat_map]; try (repeat split; reflexivity).
   rewrite !app_nil_r. apply pend_start.
 Qed.
 
@@ -246,6 +251,11 @@ Proof.
   intros q s. unfold co_step. cbn [co_done]. destruct (n_done q); eexists; reflexivity.
 Qed.
 
+Lemma co_step_links : forall q s, exists q', co_step (CLinks q) s = (CLinks q', s).
+Proof.
+  intros q s. unfold co_step. cbn [co_done]. destruct (l_done q); eexists; reflexivity.
+Qed.
+
 Lemma bstep_tree_ext : forall b s a go gi, SInv s a go gi -> BInv b a -> tree_ext s (snd (bstep b s)).
 Proof.
   intros b s a go gi HS HB. destruct (bstep_ext b s a go gi HS HB) as (a' & go' & gi' & _ & _ & _ & Hx). exact Hx.
@@ -260,7 +270,7 @@ Proof.
   intros a0 jobs cs s a go gi i c HG Hi. rewrite set_nth_co_eq.
   pose proof HG as [Gs Gc Gl Go Gi Gp Gso Gcm Gin].
   destruct (F2_nth _ _ _ _ _ _ _ Gc Hi) as (j & Hj & HJ).
-  destruct j as [d|p k|ps|out auto], c as [b|r|q|n]; cbn [JInv] in HJ; try contradiction.
+  destruct j as [d|p k|ps|out auto|w ps inb int outb], c as [b|r|q|n|lq]; cbn [JInv] in HJ; try contradiction.
   - (* a batch moves *)
     rewrite co_step_batch. cbn [fst snd].
     assert (Hb : In (CBatch b) cs) by (apply (nth_error_In _ _ Hi)).
@@ -312,6 +322,12 @@ Proof.
     apply (HInv_neutral a0 _ cs s a go gi i (CNet n) _ _ a HG Hi); try reflexivity; try assumption.
     apply F2_set_nth; [exact Gc|].
     intros j1 H1. rewrite Hj in H1. injection H1 as <-. exact I.
+  - (* a page-link query moves: the index is untouched *)
+    destruct (co_step_links lq s) as (n' & E). rewrite E. cbn [fst snd].
+    exists a, go, gi. split; [|apply tree_ext_refl].
+    apply (HInv_neutral a0 _ cs s a go gi i (CLinks lq) _ _ a HG Hi); try reflexivity; try assumption.
+    apply F2_set_nth; [exact Gc|].
+    intros j1 H1. rewrite Hj in H1. injection H1 as <-. exact I.
 Qed.
 
 Lemma HInv_exec : forall a0 jobs sched cs s a go gi, HInv a0 jobs cs s a go gi ->
@@ -347,7 +363,7 @@ Qed.
 Lemma done_cp : forall s a j c, JInv s a j c -> co_done c = true ->
   cpo c = [] /\ cpi c = [] /\ cpe c = [].
 Proof.
-  intros s a j c HJ Hd. destruct c as [b|r|q|n]; cbn [cpo cpi cpe]; auto.
+  intros s a j c HJ Hd. destruct c as [b|r|q|n|lq]; cbn [cpo cpi cpe]; auto.
   destruct j; cbn [JInv] in HJ; try contradiction. apply (done_pend b a HJ Hd).
 Qed.
 
